@@ -10,7 +10,7 @@ import copy as _copy
 import math
 from typing import Any, Dict, List
 
-from .common import call, isnan, lt, same, is_symbolic
+from .common import call, isnan, lt, same, is_symbolic, replay_tiers
 
 INF = float("inf")
 PROP = "C14"
@@ -454,7 +454,7 @@ OUTSIDE = [
 def replay(obligation: str, witness):
     """run the same harness concretely on the plain library"""
     from sx.concrete import run_concrete
-    for tier in ("thorough", "quick"):
+    for tier in replay_tiers():
         for ob in obligations(tier):
             if ob.name == obligation:
                 reproduced, msg, _ = run_concrete(ob.harness, witness)
